@@ -8,3 +8,4 @@ import ZbossModel.Props.C13
 #print axioms Zboss.Host.settle_idle
 #print axioms Zboss.Host.C13_late_response_no_effect
 #print axioms Zboss.Host.C13_late_response_no_effect_reachable
+#print axioms Zboss.Host.C13_next_request_gets_its_response
